@@ -106,7 +106,7 @@ func (srv *Session) consumeSingleCommand(ctx context.Context, reader *buffer.Rea
 
 	// NOTE: we could recover from this scenario
 	if errors.Is(err, buffer.ErrMessageSizeExceeded) {
-		err = handleMessageSizeExceeded(reader, writer, err)
+		err = srv.handleMessageSizeExceeded(t, reader, writer, err)
 		if err != nil {
 			return err
 		}
@@ -139,7 +139,7 @@ func (srv *Session) consumeSingleCommand(ctx context.Context, reader *buffer.Rea
 // type. A fatal error is returned when an unexpected error is returned while
 // consuming the expected message size or when attempting to write the error
 // message back to the client.
-func handleMessageSizeExceeded(reader *buffer.Reader, writer *buffer.Writer, exceeded error) (err error) {
+func (srv *Session) handleMessageSizeExceeded(t types.ClientMessage, reader *buffer.Reader, writer *buffer.Writer, exceeded error) (err error) {
 	unwrapped, has := buffer.UnwrapMessageSizeExceeded(exceeded)
 	if !has {
 		return exceeded
@@ -150,7 +150,13 @@ func handleMessageSizeExceeded(reader *buffer.Reader, writer *buffer.Writer, exc
 		return err
 	}
 
-	return ErrorCode(writer, exceeded)
+	// NOTE: ready for query ends the command cycle of a simple query, it must
+	// not be sent in response to any other message.
+	if t == types.ClientSimpleQuery && !srv.discard {
+		return ErrorCode(writer, exceeded)
+	}
+
+	return writeErrorResponse(writer, exceeded)
 }
 
 // handleCommand handles the given client message. A client message includes a
